@@ -1001,6 +1001,18 @@ class GroupBy:
 
         if transform:
             self._unify_group_key_chunks()
+            if func_is_mean:
+                # the broadcast value is the group's mean, not its sum
+                means = []
+                for result, count in zip(result_columns, counts):
+                    count = np.append(count[:result_len], 0)  # slot of the null keys
+                    with np.errstate(invalid="ignore", divide="ignore"):
+                        means.append(
+                            mean_from_sum_count(
+                                pd.Series(result), pd.Series(count)
+                            ).to_numpy()
+                        )
+                result_columns = means
             result_columns = [result[self.group_ikey] for result in result_columns]
             if common_index is not None:
                 result_index = common_index
